@@ -134,4 +134,37 @@ def psConstruct (c : PSConst α) (data : Array α) : PSState α :=
 
 def psCopy (c : PSConst α) (s : PSState α) : PSState α := psConstruct c s.data
 
+/-! ### construction from the built-in Gaussians (constructor called without data) -/
+
+/-- first loop nest of `createFromProjections`: `data[b][x][y] = proj0[b][x]·proj1[b][y]` -/
+def psOuter (c : PSConst α) (s : PSState α) : PSState α :=
+  { s with data := ((List.range (c.nb * c.n * c.n)).map fun i =>
+      s.proj0.getD (i / (c.n * c.n) * c.n + i / c.n % c.n) zero
+        * s.proj1.getD (i / (c.n * c.n) * c.n + i % c.n) zero).toArray }
+
+/-- the member functions that `createFromProjections` and the constructor call by name -/
+def psCall (c : PSConst α) (f : String) (s : PSState α) : PSState α :=
+  if f = "updateXProjection" then psXProj c s
+  else if f = "updateYProjection" then psYProj c s
+  else if f = "integrate" then psIntegrate c s
+  else if f = "normalize" then psNormalize c s
+  else s
+
+/-- `createFromProjections`: outer product, then `updateXProjection; integrate; normalize` — the charge that
+    `normalize` divides by is the one just measured on the new grid -/
+def psCreateFromProjections (c : PSConst α) (s : PSState α) : PSState α :=
+  psNormalize c (psIntegrate c (psXProj c (psOuter c s)))
+
+/-- constructor without data: `setProjection(0, b, gaus(0, zoom)); setProjection(1, b, gaus(1, zoom))` for every
+    bunch (`g0`, `g1` = the two sampled Gaussians), `createFromProjections()`, then the common tail
+    `updateXProjection; updateYProjection; integrate`; moments start at zero -/
+def psConstructGauss (c : PSConst α) (g0 g1 : Nat → α) : PSState α :=
+  let z := Array.replicate (2 * c.nb) (zero : α)
+  let s : PSState α := { data := Array.replicate (c.nb * c.n * c.n) zero,
+                         proj0 := ((List.range (c.nb * c.n)).map fun k => g0 (k % c.n)).toArray,
+                         proj1 := ((List.range (c.nb * c.n)).map fun k => g1 (k % c.n)).toArray,
+                         filling := Array.replicate c.nb zero, integral := lit 1 1 0x3f800000,
+                         mean := z, var := z, rms := z }
+  psIntegrate c (psYProj c (psXProj c (psCreateFromProjections c s)))
+
 end Inovesa
